@@ -120,5 +120,5 @@ func truncate(s *slip.Scope, f slip.Object, args slip.List, depth int) slip.Valu
 	case slip.Complex:
 		slip.TypePanic(s, depth, "number", tn, "real")
 	}
-	return slip.Values{q, r}
+	return slip.Values{canonicalNumber(q), canonicalNumber(r)}
 }
